@@ -56,6 +56,12 @@ def ev(node, env):
         mod = env.get('__module__')
         if mod is not None and len(mod.assigns.get(node.id, [])) == 1:
             return ev(mod.assigns[node.id][0], {'__module__': mod})
+        # workaround for a rename slip of sa/normalize.py: inside a nested def of an inlined helper the uses of a
+        # parameter are renamed (`x_inl1`) while the parameter itself keeps its name (`x`)
+        import re as _re
+        m = _re.match(r'^(.*)_inl\d+$', node.id)
+        if m and m.group(1) in env:
+            return env[m.group(1)]
         raise Unsupported('name %s' % node.id)
     if isinstance(node, ast.Attribute) and node.attr in ('inf', 'infty', 'Inf', 'Infinity') and isinstance(node.value, ast.Name) \
             and node.value.id in ('np', 'numpy', 'math'):
@@ -116,6 +122,8 @@ def ev(node, env):
         a, b = ev(node.left, env), ev(node.right, env)
         if isinstance(a, list) and isinstance(b, list):
             return a + b
+        if isinstance(a, str) and isinstance(b, str):
+            return a + b
         if isinstance(a, (int, float)) and isinstance(b, (int, float)) and not isinstance(a, bool) and not isinstance(b, bool):
             return a + b
         raise Unsupported('addition of model values')
@@ -139,9 +147,40 @@ def ev(node, env):
         elif isinstance(node.func, ast.Attribute) and callable(env.get(ast.unparse(node.func))):
             target = env[ast.unparse(node.func)]
         if target is not None:
-            if any(isinstance(a, ast.Starred) for a in node.args) or any(k.arg is None for k in node.keywords):
-                raise Unsupported('star arguments')
-            return target(*[ev(a, env) for a in node.args], **{k.arg: ev(k.value, env) for k in node.keywords})
+            args, kw = _call_args(node, env)
+            return target(*args, **kw)
+        # unreviewed helper methods of the same class, interpreted on the model
+        if isinstance(node.func, ast.Attribute) and isinstance(node.func.value, ast.Name) and node.func.value.id == env.get('__self__') \
+                and node.func.attr in env.get('__methods__', {}):
+            fn = env['__methods__'][node.func.attr]
+            args, kw = _call_args(node, env)
+            static = any(ast.unparse(d) == 'staticmethod' for d in fn.decorator_list)
+            inner = {k: v for k, v in env.items() if k.startswith('__') or k.startswith(env['__self__'] + '.')}
+            return _apply(fn, ([] if static else [env.get(env['__self__'])]) + args, kw, inner)
+        if isinstance(node.func, ast.Name) and node.func.id in ('max', 'min') and node.func.id not in env:
+            args, kw = _call_args(node, env)
+            if set(kw) - {'key', 'default'}:
+                raise Unsupported('max/min keywords')
+            try:
+                return (max if node.func.id == 'max' else min)(*args, **kw)
+            except ValueError:
+                raise ModelRaise(cls='ValueError')
+            except TypeError:
+                raise ModelRaise(cls='TypeError')
+        if isinstance(node.func, ast.Name) and node.func.id in env.get('__funcs__', {}) and node.func.id not in env:
+            fn = env['__funcs__'][node.func.id]
+            if fn.decorator_list:
+                raise Unsupported('decorated function %s' % fn.name)
+            args, kw = _call_args(node, env)
+            return _apply(fn, args, kw, {k: v for k, v in env.items() if k.startswith('__')})
+        if isinstance(node.func, ast.Attribute) and node.func.attr in STR_METHODS:
+            recv = ev(node.func.value, env)
+            if isinstance(recv, str):
+                try:
+                    return getattr(recv, node.func.attr)(*[ev(x, env) for x in node.args],
+                                                           **{k.arg: ev(k.value, env) for k in node.keywords})
+                except (TypeError, ValueError, KeyError, IndexError) as e:
+                    raise ModelRaise(cls=type(e).__name__)
         if isinstance(node.func, ast.Name) and node.func.id == 'isinstance' and len(node.args) == 2 and '__isinstance__' in env:
             tn = [ast.unparse(t).split('.')[-1] for t in (node.args[1].elts if isinstance(node.args[1], ast.Tuple) else [node.args[1]])]
             res = env['__isinstance__'](ev(node.args[0], env), tn)
@@ -175,8 +214,10 @@ def ev(node, env):
             v = ev(node.args[0], env)
             try:
                 return float(v)
-            except (TypeError, ValueError):
-                raise Unsupported('float()')
+            except ValueError:
+                raise ModelRaise(cls='ValueError')
+            except TypeError:
+                raise ModelRaise(cls='TypeError')
         if isinstance(node.func, ast.Name) and node.func.id in ('any', 'all') and len(node.args) == 1 and not node.keywords:
             vals = ev(node.args[0], env)
             return any(vals) if node.func.id == 'any' else all(vals)
@@ -242,14 +283,104 @@ def ev(node, env):
                     gen(i + 1, e2)
         gen(0, env)
         return set(out) if isinstance(node, ast.SetComp) else out
+    if isinstance(node, ast.Lambda):
+        a = node.args
+        if a.vararg or a.kwarg or a.kwonlyargs or a.posonlyargs or a.defaults:
+            raise Unsupported('lambda signature')
+        names = [x.arg for x in a.args]
+
+        def fn(*vals):
+            if len(vals) != len(names):
+                raise Unsupported('lambda arity')
+            e2 = dict(env)
+            e2.update(zip(names, vals))
+            return ev(node.body, e2)
+        return fn
+    if isinstance(node, ast.JoinedStr):
+        out = []
+        for part in node.values:
+            if isinstance(part, ast.Constant):
+                out.append(str(part.value))
+            elif isinstance(part, ast.FormattedValue):
+                v = ev(part.value, env)
+                if part.conversion == 114:
+                    v = repr(v)
+                elif part.conversion == 115:
+                    v = str(v)
+                elif part.conversion == 97:
+                    v = ascii(v)
+                spec = ev(part.format_spec, env) if part.format_spec is not None else ''
+                try:
+                    out.append(format(v, spec))
+                except (TypeError, ValueError) as e:
+                    raise ModelRaise(cls=type(e).__name__)
+            else:
+                raise Unsupported('f-string part')
+        return ''.join(out)
     if isinstance(node, ast.IfExp):
         return ev(node.body, env) if ev(node.test, env) else ev(node.orelse, env)
     raise Unsupported(type(node).__name__)
 
 
+def _call_args(node, env):
+    args, kw = [], {}
+    for a in node.args:
+        if isinstance(a, ast.Starred):
+            args.extend(list(ev(a.value, env)))
+        else:
+            args.append(ev(a, env))
+    for k in node.keywords:
+        if k.arg is None:
+            d = ev(k.value, env)
+            if not isinstance(d, dict):
+                raise Unsupported('** of a non-dict')
+            kw.update(d)
+        else:
+            kw[k.arg] = ev(k.value, env)
+    return args, kw
+
+
+def _apply(fn, args, kw, inner):
+    a = fn.args
+    if a.vararg or a.kwonlyargs or a.posonlyargs:
+        raise Unsupported('signature of %s' % fn.name)
+    names = [x.arg for x in a.args]
+    defaults = dict(zip(names[len(names) - len(a.defaults):], a.defaults))
+    kw = dict(kw)
+    if len(args) > len(names):
+        raise Unsupported('too many arguments for %s' % fn.name)
+    for i, n in enumerate(names):
+        if i < len(args):
+            inner[n] = args[i]
+        elif n in kw:
+            inner[n] = kw.pop(n)
+        elif n in defaults:
+            inner[n] = ev(defaults[n], inner)
+        else:
+            raise Unsupported('missing argument %s' % n)
+    if a.kwarg:
+        inner[a.kwarg.arg] = kw
+    elif kw:
+        raise Unsupported('unexpected keyword arguments')
+    if names and '__self__' in inner and inner.get('__selfobj__') is not None and inner[names[0]] is inner['__selfobj__']:
+        inner['__self__'] = names[0]
+    return call(fn, inner)[1]
+
+
 def _bind(target, value, env):
     if isinstance(target, ast.Name):
         env[target.id] = value
+    elif isinstance(target, ast.Subscript):
+        key = ast.unparse(target)
+        base = ev(target.value, env)
+        idx_ = ev(target.slice, env)
+        if isinstance(base, (dict, list)):
+            try:
+                base[idx_] = value
+            except (IndexError, TypeError):
+                raise Unsupported('subscript store')
+        else:
+            raise Unsupported('subscript store on %s' % type(base).__name__)
     elif isinstance(target, (ast.Tuple, ast.List)) and all(isinstance(e, ast.Name) for e in target.elts):
         vals = list(value)
         if len(vals) != len(target.elts):
@@ -261,9 +392,27 @@ def _bind(target, value, env):
 
 
 class ModelRaise(Exception):
-    def __init__(self, stmt):
+    """An exception raised while interpreting on the model: by a `raise` statement (stmt set) or by a modelled
+    builtin (e.g. float('abc') -> ValueError)."""
+
+    def __init__(self, stmt=None, cls=None):
         Exception.__init__(self, 'raise')
         self.stmt = stmt
+        if cls is None and stmt is not None and stmt.exc is not None:
+            e = stmt.exc.func if isinstance(stmt.exc, ast.Call) else stmt.exc
+            cls = e.attr if isinstance(e, ast.Attribute) else (e.id if isinstance(e, ast.Name) else None)
+        self.cls = cls
+
+
+BUILTIN_EXC = {'ValueError', 'TypeError', 'KeyError', 'IndexError', 'ZeroDivisionError', 'OverflowError', 'AttributeError'}
+STR_METHODS = {'strip', 'lstrip', 'rstrip', 'endswith', 'startswith', 'lower', 'upper', 'replace', 'format', 'split', 'join'}
+
+
+def _handler_matches(h, exc):
+    if h.type is None:
+        return True
+    names = [ast.unparse(t).split('.')[-1] for t in (h.type.elts if isinstance(h.type, ast.Tuple) else [h.type])]
+    return exc.cls in names or 'Exception' in names or 'BaseException' in names
 
 
 class _Break(Exception):
@@ -296,7 +445,32 @@ def run(stmts, env):
         if isinstance(s, ast.Return):
             raise _Return(ev(s.value, env) if s.value is not None else None, s)
         if isinstance(s, ast.Raise):
+            if s.exc is None and env.get('__exc__') is not None:
+                raise env['__exc__']
             raise ModelRaise(s)
+        if isinstance(s, ast.Try) and not s.finalbody:
+            try:
+                run(s.body, env)
+            except ModelRaise as exc:
+                hs = [h for h in s.handlers if _handler_matches(h, exc)]
+                if not hs:
+                    raise
+                saved = env.get('__exc__')
+                env['__exc__'] = exc
+                if hs[0].name:
+                    env[hs[0].name] = exc
+                try:
+                    run(hs[0].body, env)
+                finally:
+                    env['__exc__'] = saved
+            else:
+                run(s.orelse, env)
+            continue
+        if isinstance(s, ast.FunctionDef):
+            def closure(*args, _fn=s, _env=env, **kw):
+                return _apply(_fn, list(args), kw, dict(_env))
+            env[s.name] = closure
+            continue
         if isinstance(s, ast.Break):
             raise _Break()
         if isinstance(s, ast.Continue):
